@@ -238,7 +238,7 @@ def execute(mod, scenario, keep_events=False):
     # that no run depends on what an earlier run in the same process left.
     np.random.seed(scenario.get('seed', 0) & 0x7FFFFFFF)
     random.seed(scenario.get('seed', 0))
-    limit = float(os.environ.get('DST_RUN_TIMEOUT', '30'))
+    limit = float(os.environ.get('DST_RUN_TIMEOUT', '60'))
     use_alarm = (threading.current_thread() is threading.main_thread()
                  and hasattr(signal, 'setitimer'))
     if use_alarm:
